@@ -25,6 +25,7 @@ pub enum OwnN {
     HalfLine,                                  // sum ln x - x
     SqrtLine,                                  // sum ln sqrt(x) - x: log-density AND gradient are NaN for x < 0
     Cliffs { cell: f64, levels: Vec<f64>, omega2: f64, kappa: f64 },
+    BoxU,                                      // uniform on (0,1)^d: 0 inside, -inf outside, gradient 0
 }
 impl OwnN {
     pub fn logp(&self, x: &[f64]) -> f64 {
@@ -40,6 +41,7 @@ impl OwnN {
             OwnN::Steep { c } => -c * x.iter().map(|t| t.powi(4)).sum::<f64>(),
             OwnN::HalfLine => x.iter().map(|v| v.ln() - v).sum(),
             OwnN::SqrtLine => x.iter().map(|v| v.sqrt().ln() - v).sum(),
+            OwnN::BoxU => if x.iter().all(|v| *v > 0.0 && *v < 1.0) { 0.0 } else { f64::NEG_INFINITY },
             OwnN::Cliffs { cell, levels, omega2, kappa } => cliff_level(x[0], *cell, levels) - 0.5 * kappa * x[0] * x[0] - 0.5 * omega2 * x[1] * x[1],
         }
     }
@@ -58,6 +60,7 @@ impl OwnN {
             OwnN::Steep { c } => x.iter().map(|t| -4.0 * c * t.powi(3)).collect(),
             OwnN::HalfLine => x.iter().map(|v| 1.0 / v - 1.0).collect(),
             OwnN::SqrtLine => x.iter().map(|v| 0.5 / (v.sqrt() * v.sqrt()) - 1.0).collect(),
+            OwnN::BoxU => vec![0.0; x.len()],
             OwnN::Cliffs { omega2, kappa, .. } => vec![-kappa * x[0], -omega2 * x[1]],
         }
     }
@@ -135,6 +138,15 @@ impl<B: AutodiffBackend> GradientTarget<f64, B> for Cliffs {
     }
 }
 
+/// Uniform density on the open box (0,1)^d, written as a masked constant: no gradient entry in the autodiff graph.
+#[derive(Clone)]
+pub struct BoxN;
+impl<T: Float, B: AutodiffBackend> GradientTarget<T, B> for BoxN {
+    fn unnorm_logp(&self, x: Tensor<B, 1>) -> Tensor<B, 1> {
+        let outside = (x.clone().lower_equal_elem(0.0).int() + x.clone().greater_equal_elem(1.0).int()).sum().greater_elem(0);
+        Tensor::<B, 1>::zeros([1], &x.device()).mask_fill(outside, f32::NEG_INFINITY)
+    }
+}
 #[derive(Clone)]
 pub struct SqrtLineN;
 impl<T: Float, B: AutodiffBackend> GradientTarget<T, B> for SqrtLineN {
@@ -214,6 +226,7 @@ pub fn project_with(raw: &Raw, own: &OwnN, tol: f64, delta: f64, forced: bool) -
     let mut dim = 0usize;
     let (mut eps, mut joint0, mut logu) = (0.0, 0.0, 0.0);
     let mut leaf_alpha_sum = 0.0;
+    let mut ka: i64 = 0; // adapting transitions of this chain so far
     let mut pending_merge: Vec<Value> = vec![]; // merges waiting for their nuts_ret
     let mut theta_off: i64 = 0;
     let mut pos_before: Vec<f64> = vec![];
@@ -357,18 +370,24 @@ pub fn project_with(raw: &Raw, own: &OwnN, tol: f64, delta: f64, forced: bool) -
                     out.moved += 1;
                 }
                 out.tree.push(json!({"e": "end", "m": ints[0], "na": ints[2], "pos_is_theta": is_theta, "moved": moved}));
-                // the three recurrences re-evaluated in f64 from the previously logged values
-                let m = ints[0] as f64;
+                // the three recurrences re-evaluated in f64 from the previously logged values; the dual averaging advances on
+                // ADAPTING transitions only (m <= n_discard), indexed by their own count ka -- a warm-up resumed by a later
+                // run() call continues where the previous one stopped; on a frozen transition H-bar does not move
+                let adapting = ints[0] <= ints[1];
+                if adapting {
+                    ka += 1;
+                }
+                let m = ka as f64;
                 let a = f[4] / ints[2] as f64;
                 let eta = 1.0 / (m + 10.0);
-                let h_exp = (1.0 - eta) * p_hbar + eta * (delta - a);
+                let h_exp = if adapting { (1.0 - eta) * p_hbar + eta * (delta - a) } else { p_hbar };
                 let e_exp = (p_mu - m.sqrt() / 0.05 * f[2]).exp();
                 let k = m.powf(-0.75);
                 let b_exp = ((1.0 - k) * p_epsbar.ln() + k * f[0].ln()).exp();
                 let (rh, re, rb) = (resid(f[2], h_exp, p_hbar.abs() + 1.0),
                                     resid(f[0].ln(), e_exp.ln(), p_mu.abs() + 20.0 * m.sqrt() * f[2].abs()),
                                     resid(f[1].ln(), b_exp.ln(), p_epsbar.ln().abs() + f[0].ln().abs()));
-                out.adapt.push(json!({"e": "step", "m": ints[0], "nd": ints[1], "na": ints[2], "eps": fx16(f[0].ln()), "epsbar": fx16(f[1].ln()),
+                out.adapt.push(json!({"e": "step", "m": ints[0], "nd": ints[1], "ka": ka, "na": ints[2], "eps": fx16(f[0].ln()), "epsbar": fx16(f[1].ln()),
                     "hbar": fx16(f[2]), "mu": fx16(f[3]), "alpha": fx16(f[4]), "eps_pos_finite": f[0] > 0.0 && f[0].is_finite(),
                     "epsbar_pos_finite": f[1] > 0.0 && f[1].is_finite(), "rh": rh, "re": re, "rb": rb, "a_mean": fx16(a)}));
                 let _ = p_eps;
